@@ -1,6 +1,6 @@
-\* exhaustive (thorough, deep): 4 temperatures, 2 table values, 6 kind pairs, every behaviour of up to 4 calls
-CONSTANTS NT = 4  NV = 2  MaxLevel = 4
-  KindChoices <- McKindsQuick  TempChoices <- McTempsOne  LinkPairs <- McLinks  RampSteps <- McRamp
+\* exhaustive (thorough, deep): 4 temperatures, 3 kind pairs, every behaviour of up to 4 calls
+CONSTANTS NT = 4  NV = 1  MaxLevel = 4
+  KindChoices <- McKindsDeep  TempChoices <- McTempsOne  LinkPairs <- McLinks  RampSteps <- McRamp
 INIT Init
 NEXT NextB
 CONSTRAINT Bound
